@@ -6,7 +6,7 @@ import fileio_spec as S
 from props import elf_mut
 
 ID = "C03"
-LEAN_MODULES = ["NakenVerif.Props.C03", "NakenVerif.Props.C03Elf"]
+LEAN_MODULES = ["NakenVerif.Props.C03", "NakenVerif.Props.C03Elf", "NakenVerif.Props.C03Load"]
 THEOREMS = [
     "NakenVerif.C03.hex_roundtrip",
     "NakenVerif.C03.hex_record_roundtrip",
@@ -30,6 +30,10 @@ THEOREMS = [
     "NakenVerif.C03.elf_load_segment",
     "NakenVerif.C03.elf_read_write",
     "NakenVerif.C03.elf_machine_roundtrip",
+    "NakenVerif.C03.uf2_read_refines_spec",
+    "NakenVerif.C03.uf2_read_write",
+    "NakenVerif.C03.ti_txt_read_encode",
+    "NakenVerif.C03.ti_txt_low_high",
     "NakenVerif.FileIO.ElfProofs.decode_write",
     "NakenVerif.FileIO.ElfReadProofs.read_write",
     "NakenVerif.FileIO.chunks_flat",
@@ -55,10 +59,12 @@ MODELLED = ("write_hex.cpp (write_hex, write_hex_line: 16-byte buffer, flush at 
             "section header table, the seek-back patch of e_shoff / e_shnum / e_shstrndx; symbols in Symbols::iterate order), "
             "read_elf.cpp (FileIo get_int16/32/64 incl. EOF = -1 and the uint32_t accumulator of get_int64_be, fseek failing on "
             "a negative offset, get_string_at_offset with char name[256], the .strtab search, the section loop with the "
-            "EOF-bounded load and symbol loops, low/high arithmetic in 64 bits, the e_machine switch)")
-NOT_MODELLED = ("write_amiga / write_macho and read_uf2 / read_amiga / read_macho / read_ti_txt have no Lean "
+            "EOF-bounded load and symbol loops, low/high arithmetic in 64 bits, the e_machine switch), read_uf2.cpp (read_block, magic "
+            "numbers, the not-main-flash flag, the byte_count bound of e60359f, int address), read_ti_txt.cpp (the character state "
+            "machine: @ / q / hex digits / blanks / CR, uint32_t value and address, start / end)")
+NOT_MODELLED = ("write_amiga / write_macho and read_amiga / read_macho have no Lean "
                 "model: they are covered by the specification decoders of tools/fileio_spec.py applied to the real writers' output, "
-                "by the real write->read round trip (TI-TXT: Python encoder -> read_ti_txt) and by process-level runs only "
+                "by the real write->read round trip and by process-level runs only "
                 "(differential + oracle level, not proof).  read_elf: fseek() to an offset above 2^40 (file-system dependent: ext4 "
                 "answers EINVAL above 16 TiB) is outside the model; the mutation stream avoids such files.  Mach-O is generated for the CPU's default byte order only.  The WDC model's 64 KiB run is compared "
                 "with the code in the thorough tier only (the model's buffer append is quadratic).")
